@@ -116,10 +116,10 @@ def run(ctx):
   if not q:
     pert_sets += [list(c) for c in itertools.combinations(PERTS, 2)]
   R = 9 if q else 14     # rounds x batch 2: well past the point where eagle's pool is full / NSGA-II mutates
-  tasks = [{'perturbations': ps, 'jobs': jobs, 'benchmarks': benchmarks, 'rounds': R, 'batch': 2, 'hashseed': 0} for ps in pert_sets]
+  tasks = [{'perturbations': ps, 'jobs': jobs, 'benchmarks': benchmarks, 'rounds': R, 'gp_rounds': 4, 'batch': 2, 'hashseed': 0} for ps in pert_sets]
   for hs in (4242, 1, 987654321):
-    tasks.append({'perturbations': [], 'jobs': jobs, 'benchmarks': benchmarks, 'rounds': R, 'batch': 2, 'hashseed': hs})
-  tasks.append({'perturbations': [], 'jobs': jobs, 'benchmarks': benchmarks, 'rounds': R, 'batch': 2, 'hashseed': 0})   # plain repeat
+    tasks.append({'perturbations': [], 'jobs': jobs, 'benchmarks': benchmarks, 'rounds': R, 'gp_rounds': 4, 'batch': 2, 'hashseed': hs})
+  tasks.append({'perturbations': [], 'jobs': jobs, 'benchmarks': benchmarks, 'rounds': R, 'gp_rounds': 4, 'batch': 2, 'hashseed': 0})   # plain repeat
   results = list(ctx.pmap('child', tasks))
   base = results[0]
   if base['result'] is None:
@@ -127,6 +127,7 @@ def run(ctx):
     raise HarnessError('baseline execution failed: %s' % base.get('stderr'))
   pairs = n_err = 0
   errs = {}
+  broken_by_single = set()      # (who, perturbation) pairs that already differ under that one perturbation alone
   for r in results[1:]:
     tag = '+'.join(r['task']['perturbations']) or ('hashseed' if r['task']['hashseed'] else 'repeat')
     if r['result'] is None:
@@ -144,8 +145,24 @@ def run(ctx):
       tol = 1e-6 if 'x64' in r['task']['perturbations'] else 0.0
       if not _close(val, other, tol):
         who = key.split('|')[0] if not key.startswith('bench') else 'bench:' + key.split('|')[1]
+        ps = r['task']['perturbations']
+        if len(ps) == 1:
+          broken_by_single.add((who, ps[0]))
+        elif any((who, p_) in broken_by_single for p_ in ps):
+          continue        # a pair of perturbations one of which breaks this designer on its own: already reported under that one
         ctx.violation('C14|not-reproducible|%s|%s' % (who, tag), '%s: same seed, different result under %s:\n  %s\n  %s' % (key, tag, json.dumps(val)[:300], json.dumps(other)[:300]),
                       {'key': key, 'perturbations': r['task']['perturbations']})
+  # the same seed, problem and history must give the same suggestions however often the designer was check-pointed on the way
+  # (designers whose whole stream is fixed by the seed: quasi-random, shuffled grid)
+  for name, sp, seed in jobs:
+    if name.endswith('@restart') and name.split('@')[0] in ('quasi_random', 'shuffled_grid'):
+      a = base['result'].get('%s|%s|%d' % (name.split('@')[0], '+'.join(sp), seed))
+      b = base['result'].get('%s|%s|%d' % (name, '+'.join(sp), seed))
+      pairs += 1
+      if not isinstance(a, str) and not isinstance(b, str) and a != b:
+        ctx.violation('C14|not-reproducible|%s|checkpoint-restores' % name.split('@')[0],
+                      '%s on %s seed %d: the run with dump/load restores in it differs from the plain run:\n  %s\n  %s' % (name.split('@')[0], sp, seed, json.dumps(a)[:300], json.dumps(b)[:300]),
+                      {'designer': name, 'space': sp})
   # different seeds -> different streams
   seeds_checked = 0
   for name, sp, seed in jobs:
